@@ -1,0 +1,55 @@
+//! Verification seam (compiled only with `--cfg gm_rs_verif`).
+//!
+//! Lets a simulator own the one source of nondeterminism in this crate: the 32 bytes
+//! that `random_u256` turns into a candidate scalar. With no source installed the
+//! bytes of the real generator pass through unchanged.
+use std::cell::RefCell;
+
+pub enum RngEvent {
+    /// 32 bytes about to be interpreted as a candidate (after any override).
+    Candidate([u8; 32]),
+    /// The scalar `random_u256` is about to return (little-endian limbs).
+    Accepted([u64; 4]),
+}
+
+thread_local! {
+    static SOURCE: RefCell<Option<Box<dyn FnMut(&mut [u8; 32])>>> = RefCell::new(None);
+    static OBSERVER: RefCell<Option<Box<dyn FnMut(RngEvent)>>> = RefCell::new(None);
+}
+
+pub fn set_source(f: Box<dyn FnMut(&mut [u8; 32])>) {
+    SOURCE.with(|s| *s.borrow_mut() = Some(f));
+}
+
+pub fn clear_source() {
+    SOURCE.with(|s| *s.borrow_mut() = None);
+}
+
+pub fn set_observer(f: Box<dyn FnMut(RngEvent)>) {
+    OBSERVER.with(|s| *s.borrow_mut() = Some(f));
+}
+
+pub fn clear_observer() {
+    OBSERVER.with(|s| *s.borrow_mut() = None);
+}
+
+pub(crate) fn candidate(buf: &mut [u8; 32]) {
+    SOURCE.with(|s| {
+        if let Some(f) = s.borrow_mut().as_mut() {
+            f(buf)
+        }
+    });
+    OBSERVER.with(|s| {
+        if let Some(f) = s.borrow_mut().as_mut() {
+            f(RngEvent::Candidate(*buf))
+        }
+    });
+}
+
+pub(crate) fn accepted(v: &[u64; 4]) {
+    OBSERVER.with(|s| {
+        if let Some(f) = s.borrow_mut().as_mut() {
+            f(RngEvent::Accepted(*v))
+        }
+    });
+}
